@@ -28,7 +28,7 @@ ASSUMPTIONS = [
     "KeyFile.generate_key() (explicit regeneration API) is exercised only while no context is open on that path",
 ]
 REQUIRED = ["op:enter", "op:exit", "op:encrypt", "op:decrypt", "op:external", "disk:absent", "disk:valid",
-            "disk:malformed", "enter:rejected", "enter:created", "outside-context-use", "exit:by-exception", "op:genkey", "path:home-relative", "config:key-file-reassigned"]
+            "disk:malformed", "enter:rejected", "enter:created", "outside-context-use", "exit:by-exception", "op:genkey", "path:home-relative", "path:dotdot-after-symlink", "config:key-file-reassigned"]
 LEVEL_TEXT = (
     "Generated histories against an explicit reference model of the key-file life cycle, invariant checked after "
     "every step; shows the property on the explored histories and kills the listed mutants (key kept after "
@@ -74,6 +74,7 @@ def strategy(tier):
     return st.fixed_dictionaries({
         "init": st.lists(content, min_size=2, max_size=2),
         "home_path": st.booleans(),
+        "link_path": st.booleans(),
         "ops": st.lists(op, min_size=1, max_size=max_ops),
     })
 
@@ -120,11 +121,20 @@ def run_case(case, R):
         # the name a KeyFile object is given for a path: path 1 may be spelled relative to the home directory ("~/...")
         home_dir = os.path.join(sandbox.home(), "c07-" + os.path.basename(d))
         spelled = {}
+        link_real = os.path.join(d, "keys", "store", "k1.key")
         if case.get("home_path"):
             os.makedirs(home_dir, exist_ok=True)
             paths[1] = os.path.join(home_dir, "k1.key")
             spelled[paths[1]] = "~/" + os.path.relpath(paths[1], sandbox.home())
             R.label("path:home-relative")
+        elif case.get("link_path"):
+            # ".." after a symbolic link to a directory: the operating system resolves keys/current/../k1.key to
+            # keys/store/k1.key (current -> store/v2), which is NOT what collapsing the text of the path gives
+            os.makedirs(os.path.join(d, "keys", "store", "v2"))
+            os.symlink(os.path.join("store", "v2"), os.path.join(d, "keys", "current"))
+            paths[1] = link_real
+            spelled[paths[1]] = os.path.join(d, "keys", "current", "..", "k1.key")
+            R.label("path:dotdot-after-symlink")
         disk = [None, None]  # None absent | bytes | "uncreatable"
 
         def set_disk(i, content):
@@ -135,7 +145,8 @@ def run_case(case, R):
                 os.unlink(p)
             if os.path.isfile(blocker):
                 os.unlink(blocker)
-            paths[i] = os.path.join(home_dir, "k1.key") if (i == 1 and case.get("home_path")) else os.path.join(d, "keys", "k%d.key" % i)
+            paths[i] = (os.path.join(home_dir, "k1.key") if (i == 1 and case.get("home_path")) else link_real if (i == 1 and case.get("link_path")) else
+                        os.path.join(d, "keys", "k%d.key" % i))
             p = paths[i]
             kind = content["kind"]
             R.label("disk:" + kind)
